@@ -11,7 +11,11 @@ def git(*a, check=False):
     return p
 def show(rev, path):
     p = git("show", "%s:%s" % (rev, path)); return p.stdout if p.returncode == 0 else None
+if git("status", "--porcelain").stdout.strip():
+    raise SystemExit("working tree not clean: commit first")
 m = git("merge", "--no-edit", "--no-commit", br)
+if m.returncode != 0 and "CONFLICT" not in m.stdout:
+    raise SystemExit("merge failed: " + m.stdout + m.stderr)
 print(m.stdout[-600:], m.stderr[-300:])
 conf = [l[3:] for l in git("status", "--porcelain").stdout.split("\n") if l[:2] in ("UU", "AA", "DU", "UD")]
 for path in conf:
